@@ -33,9 +33,9 @@ Theorem constructed_adsorbate_answers_to_its_name : forall n a b s, lower s = lo
 Proof. exact new_ads_eq_own_name. Qed.
 Print Assumptions constructed_adsorbate_answers_to_its_name.
 
-(* ------------------------------------------------------------ registry: THIS tree (176 adsorbates, 818 alias strings, 81 with backend) *)
+(* ------------------------------------------------------------ registry: THIS tree (176 adsorbates, 817 alias strings, 81 with backend) *)
 Theorem registry_size : length reg_db = 176%nat /\ length reg_json = 176%nat
-  /\ length (concat (map a_alias reg_db)) = 818%nat /\ length (filter a_backend reg_db) = 81%nat.
+  /\ length (concat (map a_alias reg_db)) = 817%nat /\ length (filter a_backend reg_db) = 81%nat.
 Proof. exact reg_counts. Qed.
 Print Assumptions registry_size.
 
@@ -52,29 +52,31 @@ Proof. exact all_ascii_lem. Qed.
 Print Assumptions all_ascii.
 
 (* every alias of every shipped adsorbate, written in ANY letter case, resolves to that adsorbate and an isotherm created
-   with it is linked to it - except the single string 'cyclopentane' *)
-Theorem alias_resolves_partial : forall a al s, In a reg_db -> In al (a_alias a) -> al <> "cyclopentane" ->
+   with it is linked to it (no string is exempted: C20-F1 is fixed in the data) *)
+Theorem alias_resolves : forall a al s, In a reg_db -> In al (a_alias a) ->
   lower s = al -> find reg_db s = Some a /\ set_adsorbate reg_db s = a.
-Proof. exact alias_resolves_partial_lem. Qed.
-Print Assumptions alias_resolves_partial.
+Proof. exact alias_resolves_lem. Qed.
+Print Assumptions alias_resolves.
 
-Theorem name_resolves_partial : forall a s, In a reg_db -> a_name a <> "cyclopentane" -> lower s = lower (a_name a) ->
-  find reg_db s = Some a.
-Proof. exact name_resolves_partial_lem. Qed.
-Print Assumptions name_resolves_partial.
+Theorem name_resolves : forall a s, In a reg_db -> lower s = lower (a_name a) ->
+  find reg_db s = Some a /\ set_adsorbate reg_db s = a.
+Proof. exact name_resolves_lem. Qed.
+Print Assumptions name_resolves.
 
-Theorem alias_unique_partial : forall a b al, In a reg_db -> In b reg_db -> In al (a_alias a) -> In al (a_alias b) ->
-  al <> "cyclopentane" -> a = b.
-Proof. exact alias_unique_partial_lem. Qed.
-Print Assumptions alias_unique_partial.
+(* every name or alias designates exactly one adsorbate *)
+Theorem alias_unique : forall a b al, In a reg_db -> In b reg_db -> In al (a_alias a) -> In al (a_alias b) -> a = b.
+Proof. exact alias_unique_lem. Qed.
+Print Assumptions alias_unique.
 
-(* known finding C20-F1: 'cyclopentane' designates two adsorbates; the adsorbate NAMED cyclopentane is not found by its name *)
-Theorem alias_unique_refuted :
-  exists a b, In a reg_db /\ In b reg_db /\ a_name a = "cyclopropane" /\ a_name b = "cyclopentane"
-    /\ In "cyclopentane" (a_alias a) /\ In "cyclopentane" (a_alias b)
-    /\ find reg_db (a_name b) = Some a /\ set_adsorbate reg_db "Cyclopentane" = a /\ a <> b.
-Proof. exact alias_unique_refuted_lem. Qed.
-Print Assumptions alias_unique_refuted.
+(* ... also in the implementation's own terms: for ANY string, at most one registry entry compares equal (__eq__) to it *)
+Theorem string_designates_at_most_one : forall a b s, In a reg_db -> In b reg_db ->
+  eq_str a s = true -> eq_str b s = true -> a = b.
+Proof. exact string_designates_at_most_one_lem. Qed.
+Print Assumptions string_designates_at_most_one.
+
+Example cyclopentane_resolves : exists a, In a reg_db /\ a_name a = "cyclopentane" /\ find reg_db "CycloPentane" = Some a
+  /\ set_adsorbate reg_db "CYCLOPENTANE" = a.
+Proof. exact alias_resolves_example. Qed.
 
 (* ------------------------------------------------------------ thermodynamic methods (generated), backend = oracle *)
 Open Scope R_scope.
